@@ -122,37 +122,71 @@ def check_value(v, depth=0):
 def on_alarm(sig, frm):
     raise OutOfSubset("timeout")
 
-def evaluate(req):
-    tree = ast.parse(req["src"])
-    tree = Instr().visit(tree)
-    ast.fix_missing_locations(tree)
-    code = compile(tree, "<prog>", "exec")
-    g = dict(PRELUDE)
-    del RISK[:]
+def r_range(start, stop=None, step=1):
+    # CPython's own range object (lazy, not a list): see evaluate()
+    r = _range(start, stop, step) if stop is not None else _range(start)
+    if len(r) > 5000:
+        raise OutOfSubset("range too long")
+    return r
+
+PRELUDE_REAL_RANGE = dict(PRELUDE)
+PRELUDE_REAL_RANGE["range"] = r_range
+
+def unrange(v):
+    if type(v) is _range: return list(v)
+    if type(v) is list or type(v) is tuple: return [unrange(x) for x in v]
+    if type(v) is dict: return {k: unrange(x) for k, x in v.items()}
+    return v
+
+def run(code, prelude, names):
+    g = dict(prelude)
     signal.setitimer(signal.ITIMER_REAL, 20.0)
     try:
         exec(code, g)
     finally:
         signal.setitimer(signal.ITIMER_REAL, 0)
     out = {}
-    for n in req["names"]:
-        v = g[n]
+    for n in names:
+        v = unrange(g[n])
         check_value(v)
         out[n] = v
     return json.dumps(out, ensure_ascii=True)
+
+def evaluate(req):
+    tree = ast.parse(req["src"])
+    tree = Instr().visit(tree)
+    ast.fix_missing_locations(tree)
+    code = compile(tree, "<prog>", "exec")
+    del RISK[:]
+    res = run(code, PRELUDE, req["names"])
+    if "range" in req["src"]:
+        # The lexicon says range() "returns a list of integers"; asp actually returns a lazy range
+        # object like CPython 3 does. Only programs whose values do not depend on which of the two
+        # readings is taken are comparison points.
+        try:
+            other = run(code, PRELUDE_REAL_RANGE, req["names"])
+        except OutOfSubset:
+            raise
+        except Exception as e:
+            raise OutOfSubset("range: list/range-object reading differ (" + type(e).__name__ + ")")
+        if other != res:
+            raise OutOfSubset("range: list/range-object reading differ")
+    return res
 
 def main():
     resource.setrlimit(resource.RLIMIT_AS, (2 << 30, 2 << 30))
     signal.signal(signal.SIGALRM, on_alarm)
     sys.setrecursionlimit(400)
     for line in sys.stdin:
-        try:
-            req = json.loads(line)
-            res = {"ok": True, "vals": evaluate(req), "risk": ";".join(RISK)}
-        except BaseException as e:
-            if isinstance(e, (KeyboardInterrupt, SystemExit)): raise
-            res = {"ok": False, "err": type(e).__name__ + ": " + str(e)[:200]}
-        sys.stdout.write(json.dumps(res) + "\n")
+        out = []
+        for req in json.loads(line):          # one request line carries a batch of programs
+            try:
+                res = {"ok": True, "vals": evaluate(req), "risk": ";".join(RISK)}
+            except BaseException as e:
+                if isinstance(e, (KeyboardInterrupt, SystemExit)): raise
+                res = {"ok": False, "err": type(e).__name__ + ": " + str(e)[:200]}
+            out.append(res)
+        sys.stdout.write(json.dumps(out) + "\n")
         sys.stdout.flush()
 
 main()
@@ -172,6 +206,7 @@ type PyServer struct {
 	in    io.WriteCloser
 	out   *bufio.Reader
 	Evals int
+	Trips int
 }
 
 // StartPy starts the python oracle; the script is written to dir.
@@ -197,22 +232,41 @@ func StartPy(dir string) (*PyServer, error) {
 	return &PyServer{cmd: cmd, in: in, out: bufio.NewReaderSize(out, 1<<20)}, nil
 }
 
-// Eval evaluates src and returns the final values of names.
-func (p *PyServer) Eval(src string, names []string) (PyResult, error) {
-	req, _ := json.Marshal(map[string]any{"src": src, "names": names})
+// A PyReq is one program and the globals to report.
+type PyReq struct {
+	Src   string   `json:"src"`
+	Names []string `json:"names"`
+}
+
+// EvalMany evaluates a batch of programs in one round trip (each in a fresh namespace).
+func (p *PyServer) EvalMany(reqs []PyReq) ([]PyResult, error) {
+	if len(reqs) == 0 {
+		return nil, nil
+	}
+	req, _ := json.Marshal(reqs)
 	if _, err := p.in.Write(append(req, '\n')); err != nil {
-		return PyResult{}, err
+		return nil, err
 	}
 	line, err := p.out.ReadBytes('\n')
 	if err != nil {
-		return PyResult{}, fmt.Errorf("python oracle died: %w", err)
+		return nil, fmt.Errorf("python oracle died: %w", err)
 	}
-	var res PyResult
-	if err := json.Unmarshal(line, &res); err != nil {
-		return PyResult{}, fmt.Errorf("bad oracle reply %q: %w", line, err)
+	var res []PyResult
+	if err := json.Unmarshal(line, &res); err != nil || len(res) != len(reqs) {
+		return nil, fmt.Errorf("bad oracle reply %q: %v", line, err)
 	}
-	p.Evals++
+	p.Evals += len(reqs)
+	p.Trips++
 	return res, nil
+}
+
+// Eval evaluates src and returns the final values of names.
+func (p *PyServer) Eval(src string, names []string) (PyResult, error) {
+	res, err := p.EvalMany([]PyReq{{Src: src, Names: names}})
+	if err != nil {
+		return PyResult{}, err
+	}
+	return res[0], nil
 }
 
 // Close stops the oracle.
